@@ -22,8 +22,10 @@ that a check can record, not judge, them.
 
 from __future__ import annotations
 
+import contextlib
 import enum
 import inspect
+import logging
 import signal
 import sys
 import tracemalloc
@@ -732,6 +734,52 @@ def malformed_frames(rng: Any, n: int) -> list[tuple[str, bytes]]:
     out.extend(random_strings(rng, max(0, n - len(out))))
     rng.shuffle(out)
     return out[:n]
+
+
+# --------------------------------------------------------------------------
+# logging configuration as a workload dimension
+
+XKNX_LOGGERS = ("xknx.log", "xknx.raw_socket", "xknx.knx", "xknx.telegram", "xknx.cemi", "xknx.ip_secure", "xknx.state_updater")
+
+
+class _RecordingHandler(logging.Handler):
+    """Formats every record (so that %-arguments and reprs are really evaluated) and counts it; prints nothing."""
+
+    def __init__(self) -> None:
+        super().__init__(logging.DEBUG)
+        self.records = 0
+        self.errors = 0
+
+    def emit(self, record: logging.LogRecord) -> None:
+        self.records += 1
+        try:
+            record.getMessage()
+        except Exception:  # noqa: BLE001 - a log call that cannot be formatted is counted, logging itself swallows it too
+            self.errors += 1
+
+
+@contextlib.contextmanager
+def debug_logging(ctx: Any = None) -> Any:
+    """Run the block with the xknx loggers at DEBUG and a recording handler; levels/handlers/propagation restored afterwards."""
+    handler = _RecordingHandler()
+    saved = []
+    for name in XKNX_LOGGERS:
+        lg = logging.getLogger(name)
+        saved.append((lg, lg.level, lg.propagate))
+        lg.setLevel(logging.DEBUG)
+        lg.propagate = False
+        lg.addHandler(handler)
+    try:
+        yield handler
+    finally:
+        for lg, level, propagate in saved:
+            lg.removeHandler(handler)
+            lg.setLevel(level)
+            lg.propagate = propagate
+        if ctx is not None:
+            ctx.count("debug_log_records_emitted", handler.records)
+            if handler.errors:
+                ctx.count("recorded_debug_log_records_not_formattable", handler.errors)
 
 
 # --------------------------------------------------------------------------
